@@ -33,7 +33,10 @@ PROP_TIES = {
             'Position.netTotal', 'Position.commission', 'Position.netInclCommission', 'Position.realised', 'Position.unrealised',
             'Position.totalPnl', 'Position.updatePrice', 'Position.transactBuy', 'Position.transactSell', 'Position.transact',
             'Position.openFrom'],
-    'C15': _keys('Position', 'transact', ['err']) + _keys('Position', 'updatePrice', ['err']),
+    'C15': _keys('Position', 'transact', ['err']) + _keys('Position', 'updatePrice', ['err']) +
+           _keys('Portfolio', 'subscribe', ['err', 'cash', 'appended']) + _keys('Portfolio', 'withdraw', ['err', 'cash', 'appended']) +
+           _keys('Portfolio', 'transactAsset', ['err', 'cash', 'appended']),
+    'C01': ['Portfolio.subscribe', 'Portfolio.withdraw', 'Portfolio.transactAsset'],
     'C04': ['Broker.makeTxn'],
     'C05': ['Broker.makeTxn', 'PercentFee.totalCost', 'ZeroFee.totalCost'],
     'C10': ['DW.normalise', 'DW.quantity', 'PercentFee.totalCost', 'ZeroFee.totalCost'],
@@ -41,7 +44,7 @@ PROP_TIES = {
     'C08': ['Broker.makeTxn', 'PercentFee.totalCost', 'ZeroFee.totalCost', 'DW.normalise', 'DW.quantity', 'LS.normalise', 'LS.quantity',
             'Position.net', 'Position.marketValue'] + _keys('Position', 'transact', _POS_FIELDS_QTY) + _keys('Position', 'openFrom', _POS_FIELDS_QTY),
 }
-_UNIT_OF = {'PercentFee': 'Kernels', 'ZeroFee': 'Kernels', 'DW': 'Kernels', 'LS': 'Kernels', 'Broker': 'Kernels'}
+_UNIT_OF = {'Portfolio': 'Kernels', 'PercentFee': 'Kernels', 'ZeroFee': 'Kernels', 'DW': 'Kernels', 'LS': 'Kernels', 'Broker': 'Kernels'}
 
 
 def _lean_errors(path):
